@@ -4,8 +4,9 @@ apply each patch to /repo, run the property's quick check, record the result, un
 import json, os, shutil, subprocess, sys
 V = os.path.dirname(os.path.dirname(os.path.abspath(__file__)))
 pid = sys.argv[1]
-src = f"/tmp/mut/out_{pid}"
-dst = os.path.join(V, "seeded", pid)
+rnd = os.environ.get("SEEDED_ROUND", "1")
+src = f"/tmp/mut/out_{pid}" if rnd == "1" else f"/tmp/mut/out{rnd}_{pid}"
+dst = os.path.join(V, "seeded", pid) if rnd == "1" else os.path.join(V, "seeded", pid, "r" + rnd)
 os.makedirs(dst, exist_ok=True)
 if os.path.isdir(src):
     for fn in os.listdir(src):
